@@ -141,7 +141,9 @@ pub fn run(ctx: &mut Ctx) {
     let n = ctx.n(800, 60_000);
     let cases = matcher_cases(prop, ctx, &cfg, n);
     ctx.ev.rule = "corpus + repo fixtures + generated ledgers (1–3 securities, 2–14 lines, offsets 0,1,2,5,10,29,30,31,32 around month ends/leap days/5–6 April, fees, fractional quantities, exact split ratios, cost events, every third a contention shape: k earlier disposals × a later purchase with/without its own same-day sale × split between). Correspondence: every leg (rule, quantity, acquisition date exactly; cost, proceeds, gain to 1e-15) and pools, implementation vs Lean model of the code. Oracle: implementation vs the independent Spec (legs per rule and acquisition date; costs, proceeds, gain for securities without cost events). Non-trivial = accepted ledger with contention (one acquisition date used by ≥ 2 disposals or by a 30-day and a same-day leg) or a disposal spread over ≥ 2 rules; distinct by ledger text.".into();
+    let mut cli_left: u32 = if ctx.tier == Tier::Quick { 8 } else { 80 };
     for (name, l) in cases {
+        if cli_left > 0 && well_formed(&l) && l.len() >= 3 { cli_left -= 1; cli_crosscheck(ctx, prop, &l, None); }
         ctx.ev.evaluations += 1;
         let imp = run_impl::impl_match(&l);
         let msd = multi_sell_day(&l);
